@@ -3,6 +3,8 @@ package memdrv
 import (
 	"bytes"
 	"fmt"
+	"os"
+	"runtime"
 	"runtime/debug"
 
 	"verif.local/harness/vrt"
@@ -98,8 +100,7 @@ func concOnce(impl string, size int, cfg ConcCfg, s *vrt.Sched) (evs []cev, dead
 			emit(cev{"e": "closing", "g": vrt.GID()})
 			emit(cev{"e": "close", "g": vrt.GID(), "ok": sec.Close() == nil, "closed": sec.IsClosed()})
 		}
-		k := sh.Kernel()
-		emit(cev{"e": "end", "closed": sec.IsClosed(), "mapped": k.Mapped, "readAfter": sec.WithBytes(func([]byte) error { return nil }) == nil})
+		emit(cev{"e": "end", "closed": sec.IsClosed(), "mapped": sh.Mapped(), "readAfter": sec.WithBytes(func([]byte) error { return nil }) == nil})
 	})
 	s.Run()
 	return evs, s.Dead, pan
@@ -150,49 +151,65 @@ func Conc(cfg ConcCfg, seed int64, tracePath, outPath string) error {
 				one("pct", vrt.NewSched(seed*104729+int64(i)).WithPCT(1+i%3, 120))
 			}
 			if cfg.DFS > 0 {
-				work := [][]int{nil}
-				seen := map[string]bool{}
+				// depth-first over schedule prefixes with at most cfg.Preempt preemptions. The collector is off (see above), so
+				// prefixes are kept as shared chains (one node per decision of the parent run) and materialised only when run, and
+				// nothing is pushed once the stack already holds the rest of the budget.
+				type node struct {
+					parent *node
+					choice int
+				}
+				type item struct {
+					at    *node // decisions before the alternative
+					alt   int
+					depth int
+				}
+				work := []item{{nil, -1, 0}}
 				n := 0
 				for len(work) > 0 && n < cfg.DFS {
-					prefix := work[len(work)-1]
+					it := work[len(work)-1]
 					work = work[:len(work)-1]
+					var prefix []int
+					if it.alt >= 0 {
+						prefix = make([]int, it.depth+1)
+						prefix[it.depth] = it.alt
+						for x, k := it.at, it.depth-1; x != nil; x, k = x.parent, k-1 {
+							prefix[k] = x.choice
+						}
+					}
 					s := vrt.NewSched(seed).WithPrefix(prefix)
 					one("dfs", s)
 					n++
 					ds := s.Decisions
-					for i := len(prefix); i < len(ds); i++ {
-						pre := 0
-						for j := 0; j < i; j++ {
-							if ds[j].Last >= 0 && ds[j].Chosen != ds[j].Last && has(ds[j].Options, ds[j].Last) {
-								pre++
+					var chain *node // decisions 0..i-1 of this run
+					pre := 0
+					for i := 0; i < len(ds); i++ {
+						if i >= len(prefix) {
+							for _, alt := range ds[i].Options {
+								if alt == ds[i].Chosen {
+									continue
+								}
+								p2 := pre
+								if ds[i].Last >= 0 && alt != ds[i].Last && has(ds[i].Options, ds[i].Last) {
+									p2++
+								}
+								if p2 > cfg.Preempt || len(work) >= cfg.DFS-n {
+									continue
+								}
+								work = append(work, item{chain, alt, i})
 							}
 						}
-						for _, alt := range ds[i].Options {
-							if alt == ds[i].Chosen {
-								continue
-							}
-							p2 := pre
-							if ds[i].Last >= 0 && alt != ds[i].Last && has(ds[i].Options, ds[i].Last) {
-								p2++
-							}
-							if p2 > cfg.Preempt {
-								continue
-							}
-							np := make([]int, 0, i+1)
-							for j := 0; j < i; j++ {
-								np = append(np, ds[j].Chosen)
-							}
-							np = append(np, alt)
-							k := fmt.Sprint(np)
-							if !seen[k] {
-								seen[k] = true
-								work = append(work, np)
-							}
+						if ds[i].Last >= 0 && ds[i].Chosen != ds[i].Last && has(ds[i].Options, ds[i].Last) {
+							pre++
 						}
+						chain = &node{chain, ds[i].Chosen}
 					}
 				}
 			}
 		}
+	}
+	if os.Getenv("VERIF_DEBUG") != "" {
+		m, _ := os.ReadFile("/proc/self/maps")
+		fmt.Fprintf(os.Stderr, "debug: goroutines=%d maps-lines=%d\n", runtime.NumGoroutine(), bytes.Count(m, []byte("\n")))
 	}
 	res.Events = tw.N
 	if err := tw.Close(); err != nil {
